@@ -17,13 +17,22 @@ type SeatOp struct {
 }
 
 func (o SeatOp) String() string {
-	if o.Kind == 'N' || o.Kind == 'X' || o.Kind == 'Z' {
+	if o.Kind == 'N' || o.Kind == 'X' || o.Kind == 'Z' || o.Kind == 'Y' {
 		return string(o.Kind)
 	}
 	return fmt.Sprintf("%c%d", o.Kind, o.Seat)
 }
 
 type seatView struct{ occ, act, res bool }
+
+// a checkpoint document the caller keeps and may apply again later, with the monitor's shadows at that time
+type seatCheckpoint struct {
+	doc    *sm.SeatManagerState
+	joined int
+	pid    int
+	empty  []bool
+	closed []bool
+}
 
 func viewSeats(m *sm.SeatManager) []seatView {
 	seats := m.GetSeats()
@@ -101,7 +110,8 @@ type seatRun struct {
 	watchSeat         int
 	watchPassed       bool
 	justArmed         bool
-	lostDealer        int    // dealer seat a restore failed to bring back (-1: none)
+	lostDealer        int // dealer seat a restore failed to bring back (-1: none)
+	kept              *seatCheckpoint
 	touched           []int  // seats touched by join/leave/reserve/sit-in since positions were assigned
 	closedAfterAssign []bool // seats the last assignment left inactive
 	engine            bool   // integration step: hand the positions to the engine
@@ -197,6 +207,40 @@ func (s *seatRun) apply(op SeatOp) {
 			for _, x := range st.Seats {
 				x.Player, x.IsActive, x.IsReserved = "ghost-of-the-restore-document", true, false
 			}
+			if s.kept == nil && err == nil {
+				// a checkpoint the caller keeps: applied now, and possibly again later (rollback)
+				k := &sm.SeatManagerState{Max: s.max, Seats: map[int]*sm.Seat{}, Dealer: -1, SB: -1, BB: -1}
+				for _, x := range m.GetSeats() {
+					c := *x
+					k.Seats[x.ID] = &c
+				}
+				if d := m.Dealer(); d != nil {
+					k.Dealer = d.ID
+				}
+				if d := m.SmallBlind(); d != nil {
+					k.SB = d.ID
+				}
+				if d := m.BigBlind(); d != nil {
+					k.BB = d.ID
+				}
+				if m.ApplyStates(k) == nil {
+					s.kept = &seatCheckpoint{doc: k, joined: s.joined, pid: s.pid,
+						empty: append([]bool{}, s.emptyAtAssign...), closed: append([]bool{}, s.closedAfterAssign...)}
+				}
+			}
+		case 'Y':
+			if s.kept != nil {
+				err = m.ApplyStates(s.kept.doc)
+				s.joined = s.kept.joined
+				s.emptyAtAssign, s.closedAfterAssign = nil, nil
+				if len(s.kept.empty) > 0 {
+					s.emptyAtAssign = append([]bool{}, s.kept.empty...)
+				}
+				if len(s.kept.closed) > 0 {
+					s.closedAfterAssign = append([]bool{}, s.kept.closed...)
+				}
+				s.rep.Inc("class_rollback_to_checkpoint")
+			}
 		case 'Z':
 			m.Reset()
 			s.joined = 0
@@ -257,7 +301,11 @@ func (s *seatRun) apply(op SeatOp) {
 		s.watchSeat = -1
 	}
 	s.justArmed = false
-	if op.Kind == 'X' || op.Kind == 'Z' {
+	if op.Kind == 'Y' {
+		s.watchSeat = -1
+		s.touched = s.touched[:0] // the shadows were rolled back with the state
+		s.rep.Inc("class_restore_or_reset")
+	} else if op.Kind == 'X' || op.Kind == 'Z' {
 		s.watchSeat = -1
 		s.touched = append(s.touched, -1)
 		s.rep.Inc("class_restore_or_reset")
@@ -683,7 +731,7 @@ func genSeatHistory(r *rand.Rand, max int) []SeatOp {
 			ops = append(ops, SeatOp{'N', 0})
 		}
 		if r.Intn(60) == 0 {
-			ops = append(ops, SeatOp{[]byte{'X', 'X', 'Z'}[r.Intn(3)], 0})
+			ops = append(ops, SeatOp{[]byte{'X', 'X', 'Z', 'Y', 'Y'}[r.Intn(5)], 0})
 		}
 	}
 	return ops
